@@ -61,12 +61,21 @@ def rewrites(line):
                     out.append(("not-eq", "%s!(%s == %s)%s" % (m.group(1), a, b, m.group(3))))
                 if op == "==":
                     out.append(("not-ne", "%s!(%s != %s)%s" % (m.group(1), a, b, m.group(3))))
+                if op in ("<", ">", "<=", ">="):
+                    inv = {"<": ">=", ">": "<=", "<=": ">", ">=": "<"}[op]
+                    out.append(("not-inv" + op, "%s!(%s %s %s)%s" % (m.group(1), a, inv, b, m.group(3))))
     m = re.match(r"^(\s*for \(.*; )\+\+(\w+)(\) \{\s*)$", line)
     if m:
         out.append(("post-inc", "%s%s++%s" % (m.group(1), m.group(2), m.group(3))))
     m = re.match(r"^(\s*)(\w[\w\.\->]*) \+= ([^;]+);\s*$", line)
     if m and SIMPLE.match(m.group(3)):
         out.append(("plus-assign", "%s%s = %s + (%s);" % (m.group(1), m.group(2), m.group(2), m.group(3))))
+    m = re.match(r"^(\s*)(\w[\w\.\->]*) -= ([^;]+);\s*$", line)
+    if m and SIMPLE.match(m.group(3)):
+        out.append(("minus-assign", "%s%s = %s - (%s);" % (m.group(1), m.group(2), m.group(2), m.group(3))))
+    m = re.match(r"^(\s*)(\+\+|--)(\w+);\s*$", line)
+    if m:
+        out.append(("step-assign", "%s%s %s= 1;" % (m.group(1), m.group(3), m.group(2)[0])))
     return out
 
 
@@ -92,7 +101,7 @@ def main():
                 continue
             for kind, new in rewrites(t):
                 cands.append(dict(file=rel, line=i + 1, kind=kind, old=t, new=new))
-    random.seed(11)
+    random.seed(int(a[a.index('--seed') + 1]) if '--seed' in a else 11)
     random.shuffle(cands)
     done = set()
     if os.path.exists(out_p):
